@@ -171,6 +171,31 @@ fn run(rng: &mut Rng, _idx: u64, tier: Tier) -> CaseOut {
     // README equivalences, for the generated body and label A = d
     let b = body.canon();
     let unit = sys.graph.unit_colored_vertices();
+    // the documented long spellings (\bind, \exists, \forall, \jump; with domains) and a loose layout mean the same
+    if rng.chance(1, 3) {
+        let mut style = Style::default();
+        style.long_hybrids = true;
+        style.extra_blanks = rng.coin();
+        let long = render_styled(&f, &style, rng);
+        match (eval_raw(&sys, &text, &ctx), eval_raw(&sys, &long, &ctx)) {
+            (Call::Ok(a), Call::Ok(b2)) => {
+                out.count("long_spellings_compared");
+                if a != b2 {
+                    violate_diff(&mut out, &world, &sys, "long spelling of the hybrid operators changes the result", (&text, &a), (&long, &b2), vec![("context_sets", sets_json(&world, &sets))]);
+                    return out;
+                }
+            }
+            (_, Call::Err(e)) => {
+                out.violate("error on a valid closed formula", format!("Err({e}) on the long spelling `{long}` of `{text}`"), case_json(&world, &[text.clone(), long.clone()], vec![]));
+                return out;
+            }
+            (_, Call::Panic(p)) | (Call::Panic(p), _) => {
+                out.violate(&crate::libg::panic_signature(&p), format!("panic on `{long}`: {p}"), case_json(&world, &[text.clone(), long.clone()], vec![]));
+                return out;
+            }
+            _ => {}
+        }
+    }
     let triples = [
         (format!("(!{{x}} in %d%: {b})"), format!("(!{{x}}: (%d% & {b}))"), "README: bind in A != bind (A & body)"),
         (format!("(3{{x}} in %d%: (@{{x}}: {b}))"), format!("(3{{x}}: (@{{x}}: (%d% & {b})))"), "README: exists in A != exists jump (A & body)"),
